@@ -111,7 +111,7 @@ func rulesC10(c *Ctx) {
 	if fn := c.MustFunc("C10.a", "objects.NewAppState"); fn != nil {
 		ok := false
 		for _, call := range p.callsIn(fn, "github.com/looplab/fsm.NewFSM") {
-			if len(call.Args) == 3 {
+			if len(call.Args) >= 3 {
 				init, isS := p.EvalString(call.Args[0])
 				e, isE := unparen(call.Args[1]).(*ast.CallExpr)
 				cb, isC := unparen(call.Args[2]).(*ast.CallExpr)
@@ -155,7 +155,7 @@ func rulesC10(c *Ctx) {
 	c.Floor("C10.c", "raise sites (HandleApplicationEvent*)", len(raise), 10)
 	isZeroOf := func(fn *Func, field string) Req {
 		return p.CallAtom(true, func(cl *ast.CallExpr, a Atom) bool {
-			return len(cl.Args) == 1 && p.recvField(fn, cl.Args[0], field)
+			return len(cl.Args) >= 1 && p.recvField(fn, cl.Args[0], field)
 		}, "resources.IsZero")
 	}
 	nComplete := 0
@@ -335,11 +335,11 @@ func rulesC11(c *Ctx) {
 			appT := T(Recv(call), st)
 			notAccepted := p.CallAtom(false, func(cl *ast.CallExpr, a Atom) bool { return Recv(cl) != nil && p.Same(a.term(Recv(cl)), appT) }, "objects.Application.IsAccepted")
 			q := p.Holds(st, anyReq(notAccepted, p.CallAtom(true, func(cl *ast.CallExpr, a Atom) bool {
-				return p.isRecvExpr(fn, Recv(cl)) && len(cl.Args) == 1 && appIDOf(p, a.term(cl.Args[0]), appT, fn)
+				return p.isRecvExpr(fn, Recv(cl)) && len(cl.Args) >= 1 && appIDOf(p, a.term(cl.Args[0]), appT, fn)
 			}, "objects.Queue.canRunApp")))
 			c.Check("C11.a", "queue max-apps gate before "+shortFn(pr[1]), call, q, "%s reached for an Accepted application without sq.canRunApp(appID) == true; facts: %v", pr[1], p.FactStrings(st))
 			u := p.Holds(st, anyReq(notAccepted, p.CallAtom(true, func(cl *ast.CallExpr, a Atom) bool {
-				return len(cl.Args) == 3 && appIDOf(p, a.term(cl.Args[1]), appT, fn)
+				return len(cl.Args) >= 3 && appIDOf(p, a.term(cl.Args[1]), appT, fn)
 			}, "ugm.Manager.CanRunApp")))
 			c.Check("C11.a", "user/group max-apps gate before "+shortFn(pr[1]), call, u, "%s reached for an Accepted application without ugm CanRunApp == true; facts: %v", pr[1], p.FactStrings(st))
 		}
@@ -360,7 +360,7 @@ func rulesC11(c *Ctx) {
 			par := p.Holds(st, anyReq(
 				p.NilAtom(true, func(t Term) bool { return p.recvField(fn, t.E, "objects.Queue.parent") }),
 				p.CallAtom(true, func(cl *ast.CallExpr, a Atom) bool {
-					return p.recvField(fn, Recv(cl), "objects.Queue.parent") && len(cl.Args) == 1 && p.isParam(fn, cl.Args[0], 0)
+					return p.recvField(fn, Recv(cl), "objects.Queue.parent") && len(cl.Args) >= 1 && p.isParam(fn, cl.Args[0], 0)
 				}, "objects.Queue.canRunApp")))
 			c.Check("C11.a", "canRunApp: parent consent before a positive answer", rs, par, "canRunApp can answer without (parent == nil || parent.canRunApp(appID)); facts: %v", p.FactStrings(st))
 			if p.isConstBool(rs.Results[0], true) {
@@ -563,7 +563,7 @@ func appIDOf(p *Prog, t Term, app Term, fn *Func) bool {
 	}
 	// app := sq.GetApplication(appID)
 	d := p.DefOf(app)
-	if cl, ok := unparen(d.E).(*ast.CallExpr); ok && p.IsCall(cl, "objects.Queue.GetApplication") && len(cl.Args) == 1 {
+	if cl, ok := unparen(d.E).(*ast.CallExpr); ok && p.IsCall(cl, "objects.Queue.GetApplication") && len(cl.Args) >= 1 {
 		return p.Same(Term{E: cl.Args[0], Env: d.Env, Idx: -1}, t)
 	}
 	return false
